@@ -29,7 +29,10 @@ def run_demo(src, wt):
             if isinstance(v, str):
                 for tok in v.replace(",", " ").split():
                     if tok.endswith("_test.go") or tok.endswith("/"):
-                        rel = tok
+                        import re
+                        rel = re.sub(r"^/var/tmp/seed-C\d+/", "", tok)
+                        if rel.startswith("/") or rel == "demo_test.go":
+                            rel = None
         pkg = None
         # find the package clause to place the file
         first = open(os.path.join(src, "demo_test.go")).read().split("\n")
